@@ -10,7 +10,7 @@ namespace ExprModel.Refine
 open ExprModel
 open ExprModel.Spec
 
-variable {c : Cfg} {P : Prog} {ctx : Ctx}
+variable {c : Cfg} {P : LProg} {ctx : Ctx}
 
 /-! ### `map` -/
 
@@ -49,7 +49,7 @@ theorem array_epi {l : Loc} {op : Op} {kk : Nat} {key : String} (hop : op = .loa
     (k : Nat) (st : List Val) (scs : List Scope) (σ : SState) (sc' : Scope) (acc : List Val) (r : R Val) (σ' : SState)
     (h : CodeAt P k [li l .load kk, li l .end_, li l .array]) (hlook : lookupKv key sc' = some (.int .int acc.length))
     (hev : ((do SM.allocAfter c.budget acc.length acc.length
-                pure (.arr .iface acc.reverse)) : SM Val) σ = (r, σ')) :
+                pure (.arr .iface acc.reverse)) : SM Val) σ = (r, σ')) (hbr : RBlame P l r) :
     Runs c P (vm k (acc ++ st) (sc' :: scs) σ c.budget)
       (outcome r (k + lsize [li l .load kk, li l .end_, li l .array]) st scs σ' c.budget) := by
   rw [alloc_tail] at hev
@@ -58,24 +58,26 @@ theorem array_epi {l : Loc} {op : Op} {kk : Nat} {key : String} (hop : op = .loa
   simp only [hlook, Option.getD_some]
   refine Runs.end_ h.tail3 ?_
   have := Runs.array (c := c) (st := st) (scs := scs) (σ := σ) (lim := c.budget) (vs := acc.reverse) h.tail3.tail1
+    (by simpa only [List.length_reverse] using hbr)
   simp only [List.length_reverse, List.reverse_reverse] at this
   exact this.to_ip (by ip_arith)
 
 theorem sim_bi_map {m : Meta} {a b : Node} {ca cb : List LInstr} {ci cs car c0 : Nat}
-    (ha : Sim c P ctx a ca) (hb : ∀ ctx', Sim c P ctx' b cb) (hsmall : SmallColl c a) (hK : LoopK P.consts ci cs car c0) :
+    (ha : Sim c P ctx a ca) (hb : ∀ ctx', Sim c P ctx' b cb) (hsmall : SmallColl c a) (hK : LoopK P.consts ci cs car c0)
+    (hbl : BlameOK c P (.builtin m "map" [a, b])) :
     Sim c P ctx (.builtin m "map" [a, b])
       (ca ++ [li m.loc .begin_] ++ emitLoop m.loc ci cs car c0 cb ++ [li m.loc .load cs, li m.loc .end_, li m.loc .array]) := by
   refine sim_loop m.loc (fbMap (specOf c) ctx b)
     (fun n acc => do
       SM.allocAfter (specOf c).budget n acc.length
       pure (.arr .iface acc.reverse)) ([] : List Val) (fun acc => acc)
-    (fun _ j acc => acc.length = j) (eval_bi_map _ m a b) ha hsmall hK rfl (fun _ _ _ _ _ _ h => h) ?_ ?_ ?_
+    (fun _ j acc => acc.length = j) (eval_bi_map _ m a b) ha hsmall hK hbl rfl (fun _ _ _ _ _ _ h => h) ?_ ?_ ?_
     (fun k st scs σ sc' v h hex => by obtain ⟨_, _, _, _, h⟩ := hex; exact (fbMap_no_exit h).elim)
   · intro k st scs σ coll h
     refine ⟨[], rfl, ?_⟩
     as_runs
     exact Runs.begin_ h ((Reach.refl _).to_ip (by ip_arith))
-  · intro coll N k0 st scs hle hN i acc σ res σ1 sc hiN hbase hex hfb
+  · intro coll N k0 st scs hle hN i acc σ res σ1 sc hiN hbase hex hfb hbr
     have hbody := loopCode_body hle
     unfold fbMap at hfb
     unfold BodyPost
@@ -85,9 +87,9 @@ theorem sim_bi_map {m : Meta} {a b : Node} {ca cb : List LInstr} {ci cs car c0 :
       simp only [SM.pure_apply, Prod.mk.injEq] at hrest
       obtain ⟨rfl, rfl⟩ := hrest
       exact ⟨sc, hbase, by simp [hex], r1⟩
-  · intro coll N k st scs σ sc' accF r σ' h hbase hex hev
+  · intro coll N k st scs σ sc' accF r σ' h hbase hex hev hbr
     subst hex
-    exact array_epi rfl hK.size k st scs σ sc' accF r σ' h hbase.size hev
+    exact array_epi rfl hK.size k st scs σ sc' accF r σ' h hbase.size hev hbr
 
 /-! ### `filter` -/
 
@@ -137,7 +139,7 @@ def KeptIs (sc : Scope) (j : Nat) (acc : List Val) : Prop :=
 
 theorem sim_bi_filter {m : Meta} {a b : Node} {ca cb : List LInstr} {ci cs car c0 cc : Nat}
     (ha : Sim c P ctx a ca) (hb : ∀ ctx', Sim c P ctx' b cb) (hsmall : SmallColl c a) (hK : LoopK P.consts ci cs car c0)
-    (hcc : P.consts[cc]? = some (.str "count")) :
+    (hcc : P.consts[cc]? = some (.str "count")) (hbl : BlameOK c P (.builtin m "filter" [a, b])) :
     Sim c P ctx (.builtin m "filter" [a, b])
       (ca ++ [li m.loc .begin_, li m.loc .push c0, li m.loc .store cc] ++
         emitLoop m.loc ci cs car c0
@@ -147,7 +149,7 @@ theorem sim_bi_filter {m : Meta} {a b : Node} {ca cb : List LInstr} {ci cs car c
     (fun _ acc => do
       SM.allocAfter (specOf c).budget acc.length acc.length
       pure (.arr .iface acc.reverse)) ([] : List Val) (fun acc => acc)
-    KeptIs (eval_bi_filter _ m a b) ha hsmall hK rfl ?_ ?_ ?_ ?_
+    KeptIs (eval_bi_filter _ m a b) ha hsmall hK hbl rfl ?_ ?_ ?_ ?_
     (fun k st scs σ sc' v h hex => by obtain ⟨_, _, _, _, h⟩ := hex; exact (fbFilter_no_exit h).elim)
   · intro sc j acc key v hk h
     refine ⟨?_, h.2⟩
@@ -157,7 +159,7 @@ theorem sim_bi_filter {m : Meta} {a b : Node} {ca cb : List LInstr} {ci cs car c
     refine ⟨scopeSet "count" (.int .int 0) [], ⟨lookup_set_same _ _ _, Nat.le_refl _⟩, ?_⟩
     as_runs
     exact Runs.begin_ h (Runs.push h.tail1 hK.zero (Runs.store h.tail1.tail3 hcc ((Reach.refl _).to_ip (by ip_arith))))
-  · intro coll N k0 st scs hle hN i acc σ res σ1 sc hiN hbase hex hfb
+  · intro coll N k0 st scs hle hN i acc σ res σ1 sc hiN hbase hex hfb hbr
     have hbody := loopCode_body hle
     have hcond : CodeAt P (k0 + 24 + lsize cb)
         ([li m.loc .jumpIfFalse (1 + lsize [li m.loc .inc cc, li m.loc .load car, li m.loc .load ci, li m.loc .index] + 3),
@@ -190,6 +192,11 @@ theorem sim_bi_filter {m : Meta} {a b : Node} {ca cb : List LInstr} {ci cs car c
             ⟨by rw [lookup_set_other (by decide)]; exact hbase.array,
              by rw [lookup_set_other (by decide)]; exact hbase.size,
              by rw [lookup_set_other (by decide)]; exact hbase.idx⟩
+          have hbf : RBlame P m.loc (fetchV coll (.int .int (i : Int)) false) := by
+            intro e he
+            rw [SM.bind_apply, SM.lift_apply, he] at hrest
+            obtain ⟨rfl, rfl⟩ := Prod.mk.inj hrest
+            exact hbr _ rfl
           have r2 : Runs c P (vm (k0 + 24 + lsize cb) (.bool true :: (acc ++ st)) (sc :: scs) σ2 c.budget)
               (outcome (fetchV coll (.int .int (i : Int)) false) (k0 + 24 + lsize cb + 14) (acc ++ st)
                 (scopeSet "count" (.int .int ((acc.length : Int) + 1)) sc :: scs) σ2 c.budget) := by
@@ -200,7 +207,7 @@ theorem sim_bi_filter {m : Meta} {a b : Node} {ca cb : List LInstr} {ci cs car c
             simp only [hsc'.array, Option.getD_some]
             refine Runs.load hx.tail3.tail3 hK.i ?_
             simp only [hsc'.idx, Option.getD_some]
-            exact (Runs.index hx.tail3.tail3.tail3).to_ip (by omega)
+            exact (Runs.index hx.tail3.tail3.tail3 hbf).to_ip (by omega)
           rcases SM.bind_cases hrest with ⟨e, hfe, rfl⟩ | ⟨el, σ3, hfv, hrest2⟩
           · rw [SM.lift_apply] at hfe
             obtain ⟨hfe1, rfl⟩ := Prod.mk.inj hfe
@@ -219,8 +226,8 @@ theorem sim_bi_filter {m : Meta} {a b : Node} {ca cb : List LInstr} {ci cs car c
       · have hnb : ∀ t, x ≠ .bool t := fun t h => hbv ⟨t, h⟩
         rw [asBool_other hnb, SM.bind_apply, SM.fail_apply] at hrest
         obtain ⟨rfl, rfl⟩ := Prod.mk.inj hrest
-        exact r1.trans_err (Runs.jumpIf_err (.inr rfl) hj hnb)
-  · intro coll N k st scs σ sc' accF r σ' h hbase hex hev
-    exact array_epi rfl hcc k st scs σ sc' accF r σ' h hex.1 hev
+        exact r1.trans_err (Runs.jumpIf_err (.inr rfl) hj hnb (hbr _ rfl))
+  · intro coll N k st scs σ sc' accF r σ' h hbase hex hev hbr
+    exact array_epi rfl hcc k st scs σ sc' accF r σ' h hex.1 hev hbr
 
 end ExprModel.Refine
